@@ -57,6 +57,32 @@ class SimSpiDev:
         return self.chip.xfer(out)
 
 
+class SharedSimSpiDev:
+    """one spidev.SpiDev object shared by the driver objects of several radios on one host (CE0 / CE1 of a Raspberry
+    Pi): open(bus, device) selects the chip the following transfers go to, as the kernel's chip select does"""
+
+    def __init__(self, chips):
+        self.chips = dict(chips)  # (bus, device) -> Chip
+        self.cur = None
+        self.no_cs = False
+
+    def open(self, bus, dev):
+        if (bus, dev) not in self.chips:
+            raise FileNotFoundError("/dev/spidev%d.%d" % (bus, dev))
+        self.cur = self.chips[(bus, dev)]
+
+    def close(self):
+        self.cur = None
+
+    def xfer2(self, out, baud=0):
+        if self.cur is None:
+            raise OSError("transfer on a spidev object that is not open")
+        sim = self.cur.sim
+        mcu = sim.cur_mcu()
+        sim.advance(mcu.j(mcu.spi_base + mcu.spi_byte * len(out)))
+        return self.cur.xfer(out)
+
+
 class SimBusSPI:
     """stand-in for busio.SPI shared by any number of devices; the chip whose CSN is low
     gets the bytes"""
